@@ -19,7 +19,7 @@ CHECKS = {
     "C02": dict(
         technique="generated BBANs x exhaustive enumeration of all 100 check-digit pairs against an own mod 97-10 reference",
         text="For generated structure-conforming BBANs of every bundled country (incl. BBANs solved so that the congruent "
-             "aliases 00/01/99 exist) from_bban is compared with an independent mod 97-10 computation and all 100 pairs are "
+             "aliases 00/01/99 exist - from random bases and from letters-only / digits-only / all-maximum bases) from_bban is compared with an independent mod 97-10 computation and all 100 pairs are "
              "enumerated: exactly the canonical one may be accepted. Exhaustive in the pair dimension, sampled in BBANs.",
         note="Trusted: own mod 97-10 in vlib/oracles/core.py; BBAN sample is random per VERIF_SEED.",
         design="7/C02"),
@@ -224,7 +224,7 @@ def main():
         "not_applicable": [{"property_id": p, "reason": NOT_YET} for p in props if p not in CHECKS],
         "notes": "All checks: exit 0 held / 1 VIOLATION / 2 harness error. VERIF_SEED seeds every random choice. "
                  "VERIF_REPO (default /repo) selects the tree under test. The level texts name each check's core domains; the "
-                 "generator dimensions added while testing the checks against 247 seeded changes (whole code space, source-literal "
+                 "generator dimensions added while testing the checks against 283 seeded changes (whole code space, source-literal "
                  "dictionary, interpreter configurations, validation routes, foreign and other-class objects, aged processes, "
                  "two-point schedules, hostile registries, ...) are listed in DESIGN.md sections 11.6-11.17.",
     }
